@@ -1,11 +1,13 @@
 #!/bin/bash
-# runs every kept refactor (r*) and every bug (a,b,c) through all checks; prints firing properties
+# runs kept seeds through all checks; usage: refall.sh refactors|bugs [name-regex]
 mkdir -p /tmp/r3c
 for d in /verif/seeded/C*; do
   n=$(basename $d)
+  [ -n "$2" ] && { echo "$n" | grep -Eq "$2" || continue; }
+  kind=$(python3 -c "import json;print(json.load(open('$d/meta.json')).get('kind','bug'))")
   case "$1" in
-    refactors) case $n in *r1|*r2) ;; *) continue;; esac ;;
-    bugs) case $n in *r1|*r2) continue;; esac ;;
+    refactors) [ "$kind" = refactor ] || continue ;;
+    bugs) [ "$kind" = refactor ] && continue ;;
   esac
   LINES_PER=40 /verif/seedtools/seedall.sh $d/patch.diff > /tmp/r3c/$n.txt 2>&1
   echo "$n: $(grep '^== ' /tmp/r3c/$n.txt | sed 's/ violation(s)//' | tr '\n' ' ')"
